@@ -297,7 +297,12 @@ pub open spec fn entry_verdict_str(s: Seq<u8>) -> V1V {
 pub enum V1BV { Line(V1V), InvalidUtf8 }
 pub open spec fn entry_verdict_bytes(b: Seq<u8>) -> V1BV {
     if first_index_of(b, 13u8) >= b.len() && b.len() >= 107 { V1BV::Line(V1V::Reject(V1K::HeaderTooLong)) }
-    else if !valid_utf8(v1_window(b)) { V1BV::InvalidUtf8 }
+    else if !valid_utf8(v1_window(b)) {
+        // [C05] a character cut short by the end of a line whose CR has not arrived yet may be completed by the next
+        // read: the verdict is that of the (valid) text before it
+        if first_index_of(b, 13u8) >= b.len() && utf8_truncated(b) { V1BV::Line(header_verdict(b.subrange(0, utf8_valid_up_to(b)))) }
+        else { V1BV::InvalidUtf8 }
+    }
     else { V1BV::Line(header_verdict(v1_window(b))) }
 }
 pub open spec fn bin_realises(w: Seq<u8>, r: Result<V1Header, V1BinError>, v: V1BV) -> bool {
